@@ -235,7 +235,7 @@ func (env *SpecEnv) lookupIdent(name string) (Val, bool) {
 		if v, ok := st.ghost[name]; ok {
 			return v, true
 		}
-		v := Var(name+"@entry", SInt)
+		v := Var(name+"@entry", ghostSort(name))
 		st.ghost[name] = v
 		return v, true
 	}
@@ -1296,4 +1296,13 @@ func resultIndex(name string, sig *types.Signature) int {
 		}
 	}
 	return -1
+}
+
+// ghostSort: ghost variables are integers unless their name ends in "Str"
+// (or is g_stdout), which makes them byte strings.
+func ghostSort(name string) *Sort {
+	if strings.HasSuffix(name, "Str") || name == "g_stdout" {
+		return SString
+	}
+	return SInt
 }
